@@ -119,7 +119,7 @@ def _conc_plan(prop, foci, text):
     return plan
 
 
-PLANS['C05'] = _conc_plan('C05', ['provider', 'mixed'],
+PLANS['C05'] = _conc_plan('C05', ['provider', 'mixed', 'multi'],
                           'Oracle: provider compare-and-swap specification '
                           'linearised by commit order from the commit log; '
                           'serial-permutation replay of the successes.')
@@ -127,7 +127,7 @@ PLANS['C06'] = _conc_plan('C06', ['consumer', 'mixed'],
                           'Oracle: consumer compare-and-swap specification '
                           'linearised by commit order; final allocations == '
                           'last success in commit order.')
-PLANS['C07'] = _conc_plan('C07', ['mixed', 'provider', 'consumer'],
+PLANS['C07'] = _conc_plan('C07', ['mixed', 'provider', 'consumer', 'multi'],
                           'Oracle: some serial permutation of the successful '
                           'requests, replayed from the start snapshot, gives '
                           'each of them success and the same stored state; '
